@@ -133,7 +133,7 @@ Not decided: that every mentioned name is declared or imported (program dependen
     ctx.rule("template balance; category typing of producers; exhaustive guard tables");
 
     let ts: Vec<&FnInfo> = m.fns.iter().filter(|f| f.module.starts_with("generator::typescript")).collect();
-    ctx.floor("C18/typescript-fns", ts.len(), 35);
+    ctx.floor("C18/typescript-fns", ts.len(), 25);
     // ---------------- balance ----------------
     let mut n_lits = 0;
     for f in &ts {
